@@ -54,6 +54,7 @@ Ret(st, e) ==
   ELSE IF p.op \in RecvOps THEN
        IF e.t \in st.cancelled
        THEN (IF e.r \in {"Cancelled", "Timeout"} THEN st1 ELSE Fail(st1, "cancel_surfaces_as_" \o e.r))
+       ELSE IF e.r = "Cancelled" /\ e.unlogged_cancel THEN st1  \* traces of the repository's own tests: task.cancel() calls are not logged
        ELSE IF e.r = "Timeout" /\ p.timed THEN st1            \* wait_for(receive(), t) timed out: surfaces as such
        ELSE IF e.r = "item" THEN
             LET x == e.v IN
@@ -73,6 +74,9 @@ Ret(st, e) ==
   ELSE st1
 
 Cancel(st, e) == IF e.t \in st.inrecv THEN [st EXCEPT !.cancelled = @ \cup {e.t}] ELSE st
+\* an item yielded by the (async) source of a send_from in progress
+Offer(st, e) == [st EXCEPT !.offered[e.t] = @ \o e.items, !.closed = e.closed,
+                           !.pending[e.t] = IF @.op = "sendfrom" THEN [@ EXCEPT !.items = @ \o e.items] ELSE @]
 
 \* end of the program: every gate released, the loop drained.  e.blocked = tasks still pending, e.loopers =
 \* receivers that keep receiving until the channel is done, e.finished = tasks that ran to completion.
@@ -96,6 +100,7 @@ Step(st, e) ==
   CASE e.ev = "call" -> Call(st, e)
     [] e.ev = "ret" -> Ret(st, e)
     [] e.ev = "cancel" -> Cancel(st, e)
+    [] e.ev = "offer" -> Offer(st, e)
     [] e.ev = "predrain" -> PreDrain(st, e)
     [] e.ev = "quiesce" -> Quiesce(st, e)
 =============================================================================
